@@ -3,7 +3,7 @@
 
    message syntax (tokens separated by one blank):
      name flags pid|- extrahex|. acks(,)|. rawhex|.|= nblocks { bname ninst { fill nvars { vname value }* }* }*
-   value:  U<hex> | S[-]<hex> | B<hex>
+   value:  U<hex> | S[-]<hex> | B<hex> | R<hex> (RawBytes)
    commands:
      S msg          serialize                      -> OK hex | ERR
      N msg          normalize                      -> msg
@@ -95,6 +95,7 @@ let val_of_tok (t : string) : wval =
       (match n_of_hex (String.sub rest 1 (String.length rest - 1)) with N0 -> WS Z0 | Npos p -> WS (Zneg p))
     else (match n_of_hex rest with N0 -> WS Z0 | Npos p -> WS (Zpos p))
   | 'B' -> WB (if rest = "" then [] else bytes_of_hex rest)
+  | 'R' -> WRaw (if rest = "" then [] else bytes_of_hex rest)
   | _ -> failwith "value"
 
 let tok_of_val (v : wval) : string =
@@ -105,6 +106,8 @@ let tok_of_val (v : wval) : string =
   | WS (Zneg p) -> "S-" ^ hex_of_n (Npos p)
   | WB [] -> "B"
   | WB l -> "B" ^ hex_of_bytes l
+  | WRaw [] -> "R"
+  | WRaw l -> "R" ^ hex_of_bytes l
 
 (* token stream *)
 let parse_msg (toks : string list) : msg =
